@@ -153,6 +153,12 @@ fn c02_scenario(rng: &mut Rng, i: usize) -> Synth {
 			// no starvation by rejected / erroring events
 			s.producers = vec![vec![ev(Priority::Normal, Verdict::Pass, 0)]];
 			s.starve_with = Some(if rng.chance(1, 2) { Verdict::Reject } else { Verdict::Error });
+			// gentle (paused) or hostile (several producers, no pause: the queue is never empty) stream
+			if rng.chance(1, 2) {
+				s.flood_producers = 2 + rng.usize(3);
+				s.flood_pause = false;
+				s.producers = vec![vec![ev(*rng.pick(&[Priority::Normal, Priority::High]), Verdict::Pass, 0)]];
+			}
 			s.throttle_ms = *rng.pick(&[5u64, 20, 50, 200]);
 			s.handler = HandlerKind::Sync(0);
 			s.filter_delay_us = 0;
